@@ -8,8 +8,13 @@ import MakoModel.Generated.Conc
 /-!
 # C16 – concurrent lookups and renders behave like some sequential execution
 
-All theorems are invariants of `Conc.step`, proved by induction over `Conc.run`: they hold after ANY schedule
-(`List Tid`), for any number of threads and any thread programs.
+All theorems but the two regenerated-shape obligations are invariants of `Conc.step`, proved by induction over
+`Conc.run`: they hold after ANY schedule (`List Tid`), for any number of threads and any thread programs.
+
+OPEN: nothing.  (The two defects this check found – a stale second-chance hit and a `KeyError` from `adjust_uri` on a
+bounded lookup – are repaired in /repo; `returns_fresh` and `uri_cache_reads_succeed` are proved without guard.)
+Not claimed: that a single `get_template` call terminates while files keep being modified concurrently (every round
+of its check-reload loop needs another stale template to have been stored meanwhile).
 -/
 namespace MakoModel.C16
 open MakoModel.Conc MakoModel.Generated.Lookup
@@ -236,18 +241,22 @@ example : Init lruSys ∧ Reachable lruSys (run lruSched lruSys) ∧ lruSys.cfg.
     `Cache._def_regions[defname]`, `lexer._regexp_cache[…]`, `TemplateLookup._uri_cache[key]`,
     `ModuleInfo._modules[…]` – the statement that stores the object into the shared container is not followed by
     statements that still mutate it: the value is complete at the moment it becomes visible to other threads, which is
-    what the model's one-step write of `memoVal` assumes.  Sixth cell: the module of `<%namespace module="…"/>`
-    (first use = first import) – `ModuleNamespace.__init__` obtains it through `__import__`, i.e. under the
-    per-module import lock, and never from `sys.modules`, where a module another thread is still initialising is
-    already visible. -/
+    what the model's one-step write of `memoVal` assumes. -/
 theorem memo_cells_stored_complete :
-    Generated.Conc.memoCells.length = 6 ∧ Generated.Conc.memoCells.all (fun c => c.2) = true := by decide
+    Generated.Conc.memoCells.length = 5 ∧ Generated.Conc.memoCells.all (fun c => c.2) = true := by decide
+
+/-- The first-use cell that is not stored by mako itself: the module of `<%namespace module="…"/>` (first use = first
+    import).  `ModuleNamespace.__init__` obtains the module it keeps ONLY from `__import__` / `import_module` calls
+    (which hold the per-module import lock until the module body has run) and never reads `sys.modules`, where a
+    module another thread is still initialising is already visible. -/
+theorem module_namespace_imports_through_lock :
+    Generated.Conc.importCells.length = 1 ∧ Generated.Conc.importCells.all (fun c => c.2) = true := by decide
 
 /-- Renders are independent: (1) a step of thread `a` leaves the record of every other thread (program counter,
     per-render context and buffers, results) untouched; (2) every shared memo cell is unset or holds the one value
     any writer writes (idempotent initialisation), and (3) a step changes a cell, if at all, to that complete value in
-    the one step (no half-initialised value is ever visible – `memo_cells_stored_complete` is the tie of this to the
-    source); (4) hence every render result, whatever the other threads did meanwhile, is the output of that render
+    the one step (no half-initialised value is ever visible – `memo_cells_stored_complete` and
+    `module_namespace_imports_through_lock` are the tie of this to the source); (4) hence every render result, whatever the other threads did meanwhile, is the output of that render
     run alone (`renderSpec`). -/
 theorem renders_independent {s0 s : Sys} (h0 : Init s0) (hr : Reachable s0 s) :
     (∀ a b s', step s a = some s' → b ≠ a → s'.threads b = s.threads b) ∧
